@@ -54,12 +54,13 @@ DEBUGS = ["off", "set", "ctx"]
 FN_FUNCTIONALS = F.FUNCTIONALS + ["jac_solve"]
 QUICK_KINDS = ["pure", "nn_flat", "nn_nested", "nn_tied", "nn_extra", "em_leaves", "em_derived", "em_alias",
                "em_list", "em_dict", "em_nn", "em_nn2", "em_call", "em_cplx", "sib:nn_nested", "sib:em_list", "multi_em_em",
-               "multi_em_nn", "multi_nn_em"]
+               "multi_em_nn", "multi_nn_em", "multi_em2_em"]
 ALL_FN_KINDS = [k for k in F.ALL_KINDS if k != "script"]
 LO_KINDS = {"solve": ["lo_herm", "lo_alias", "lo_list", "lo_rmv", "lo_sum"],
             "symeig": ["lo_herm", "lo_alias", "lo_list", "lo_sum"]}
 PROTO_FN_KINDS = ["nn_flat", "nn_nested", "nn_tied", "nn_extra", "em_leaves", "em_derived", "em_alias", "em_list",
-                  "em_dict", "em_nn", "em_call", "sib:em_alias", "sib:nn_nested", "multi_em_nn", "multi_nn_em"]
+                  "em_dict", "em_nn", "em_call", "sib:em_alias", "sib:nn_nested", "multi_em_nn", "multi_nn_em",
+                  "multi_em2_em"]
 PROTO_LO_KINDS = ["lo_herm", "lo_alias", "lo_list", "lo_sum", "lo_jac:em_leaves", "lo_jac:nn_flat"]
 
 
@@ -1245,7 +1246,7 @@ def run_alias2(cfg):
 
 MUT_KINDS = ["nn_flat", "nn_nested", "nn_tied", "nn_extra", "em_leaves", "em_derived", "em_alias", "em_list",
              "em_dict", "em_nn", "em_call", "em_cplx", "sib:nn_flat", "sib:nn_nested", "sib:em_list", "sib:em_leaves",
-             "multi_em_em", "multi_em_nn", "multi_nn_em"]
+             "multi_em_em", "multi_em_nn", "multi_nn_em", "multi_em2_em"]
 MUT_PHASES = ["backward", "backward_cg", "double_backward"]
 
 
